@@ -3,6 +3,14 @@
 import json, subprocess
 ALL = ["C%02d" % i for i in range(1, 21)]
 CHECKS = {
+ "C01": dict(level="exploration", design="§4 C01",
+   technique="runtime monitoring on virtual time: recorded send/receive histories of real sessions (all four transports, upgrade mid-stream) checked by a per-sender exactly-once/prefix/kind oracle through an independent codec; gate-scheduled check-vs-flush interleaving; race detector",
+   text="Hundreds to tens of thousands of generated sessions run against the real server inside a synctest bubble (real net/http, gorilla WebSocket and the WebTransport framing over in-memory connections). Every payload names its (sender, n); a conformant client actor decodes with the reference codec; the oracle demands per-sender received == sent in order, once, same bytes and kind, complete 600 virtual ms after the last Send, and that the session stayed open. A gate lane holds the upgrade's noop check after its writability test while the application sends.",
+   note="Trusts refcodec, the fakenet connections and gorilla/websocket's client as the WebSocket peer. WebTransport runs over an in-memory stream (hook wt.nilSession), not QUIC. Known finding: parser dependency corrupts non-ASCII text in v3 binary payloads."),
+ "C02": dict(level="exploration", design="§4 C02",
+   technique="runtime monitoring: reference-encoded client submissions on every inbound encoding vs the server's message/data event log (order, bytes, kind, exactly once, truncation at close, 200 ok)",
+   text="Generated packet lists are encoded by the reference codec in every supported form (v4 payload, v3 string/binary/base64 payloads, JSONP form bodies, WebSocket and WebTransport frames) and submitted to the real server; the monitor compares the session's message and data events with the submitted message packets up to the first close packet and checks nothing is delivered after it.",
+   note="Trusts refcodec encoders (round-trip tested). Three defects of the parser dependency (outside /repo) are listed as known findings and exercised in dedicated lanes; the clean lanes avoid exactly those input classes."),
  "C13": dict(level="exploration", design="§4 C13",
    technique="runtime monitoring: round-trip oracle over generated write-API x length x buffer x fragmentation cases on the real Conn pair (in-memory stream), race detector on",
    text="Every generated message is written through the real webtransport.Conn write paths and read back on a peer Conn over an in-memory stream that fragments reads; the oracle demands exactly one message of the same kind and bytes per write, in order. Exploration of thousands of (API, length class, buffer size, role, fragmentation) tuples per run; held-on-what-was-run, not proof.",
